@@ -53,7 +53,7 @@ func oracleC20Endpoints(kind int, idSel int, verSel int, statusSel int, count in
 	n := c20Abs(count) % 3 // number of elements in the response
 	elems := []string{"node", "way", "relation", "note", "user", "changeset"}
 
-	k := c20Abs(kind) % 16
+	k := c20Abs(kind) % 17
 	var want string  // expected path and query
 	var elem string  // element type of the response
 	single := false
@@ -91,7 +91,14 @@ func oracleC20Endpoints(kind int, idSel int, verSel int, statusSel int, count in
 		want, elem, single = fmt.Sprintf("/user/%d", id), "user", true
 	case 15:
 		want, elem, single = fmt.Sprintf("/changeset/%d", id), "changeset", true
+	case 16:
+		// free text with characters that are reserved in a query string: the documented request is
+		// /notes/search?q=<query>, i.e. the server must read back exactly this text as q and nothing else
+		want, elem = "/notes/search", "note"
 	}
+	queries := []string{"asdf", "fish & chips", "a+b", "x&limit=5000", "50% off", "k=v;w", "caf\u00e9 #1"}
+	query := queries[c20Abs(idSel)%len(queries)]
+	var gotQuery map[string][]string
 	_ = elems
 	at := time.Date(2016, 1, 1, 0, 30, 0, 0, time.FixedZone("z", (zoneHours%13)*3600))
 	var opts []FeatureOption
@@ -110,7 +117,11 @@ func oracleC20Endpoints(kind int, idSel int, verSel int, statusSel int, count in
 		reqs++
 		method = r.Method
 		got = r.URL.Path
-		if r.URL.RawQuery != "" || strings.HasSuffix(r.RequestURI, "?") {
+		if k == 16 {
+			gotQuery = map[string][]string(r.URL.Query())
+			got = r.URL.Path // the query is compared after decoding
+		}
+		if k != 16 && (r.URL.RawQuery != "" || strings.HasSuffix(r.RequestURI, "?")) {
 			got += "?" + r.URL.RawQuery
 		}
 		if status != 200 {
@@ -230,6 +241,15 @@ func oracleC20Endpoints(kind int, idSel int, verSel int, statusSel int, count in
 		if x, err = ds.Changeset(ctx, osm.ChangesetID(id)); x != nil {
 			ids = append(ids, int64(x.ID))
 		}
+	case 16:
+		var xs osm.Notes
+		xs, err = ds.NotesSearch(ctx, query)
+		for _, x := range xs {
+			ids = append(ids, int64(x.ID))
+		}
+	}
+	if k == 16 {
+		vAssert(len(gotQuery) == 1 && len(gotQuery["q"]) == 1 && gotQuery["q"][0] == query)
 	}
 	// exactly one GET to the documented path under the base URL, after the limiter
 	vAssert(reqs == 1)
